@@ -503,7 +503,14 @@ impl CodeFormatter {
     fn format_block(&mut self, block: &Block) {
         match self.options.braces.position {
             BracePosition::SameLine => self.push(&block.lparen.data).push("\n"),
-            BracePosition::NewLine => self.push("\n").push(&block.lparen.data).push("\n"),
+            BracePosition::NewLine => {
+                // (the brace goes on a line of its own, which it may already be on: a second line break would
+                // become an empty line that was not there before)
+                if self.chunks.last().map(|c| c.str.as_str()) != Some("\n") {
+                    self.push("\n");
+                }
+                self.push(&block.lparen.data).push("\n")
+            }
         };
 
         // Since we want to deal with tokens and the trivia _after_ the token,
